@@ -13,6 +13,7 @@ import (
 	"reflect"
 	"strconv"
 	"strings"
+	"time"
 )
 
 type vReplayRec struct {
@@ -339,3 +340,6 @@ func vRMul(a, b float64) float64   { return a * b }
 func vRLe(a, b float64) bool       { return a <= b }
 func vIsNaN(a float64) bool        { return a != a }
 func vIsInf(a float64) bool        { return a > 1.7976931348623157e308 || a < -1.7976931348623157e308 }
+
+// vRunGoroutines: natively, give spawned goroutines time to finish.
+func vRunGoroutines() { time.Sleep(100 * time.Millisecond) }
